@@ -249,6 +249,8 @@ impl<'w> Gen<'w> {
         g.stats.histories = 1;
         g.emit(&format!("NOTE HIST {} seed={}", name, seed));
         g.emit(&init);
+        // the freshly instantiated marketplace must be exactly the model's `instantiate` + `reply`
+        g.emit("INST");
         g
     }
 
